@@ -32,7 +32,7 @@ def run(c):
     else:
         trace = c.scratch + "/auth.ndjson"
         c.run_driver(drv, ["-mode", "auth", "-out", trace, "-n", 40 if c.thorough else 11])
-    r = c.validate("WireAuthTrace", "WireAuthTrace.cfg", trace, timeout=3000)
+    r = _wire.validate_table(c, "WireAuthTrace", "WireAuthTrace.cfg", trace, min_chunk=10)
     _wire.judge_table(c, r, trace, maxlen=160)
     n = flips = unbuilt = 0
     shapes = set()
